@@ -148,8 +148,9 @@ def check_reset(model, rep, R='C12.reset'):
         return
     effs = done[0].state.effects
     # time axis emptied
-    t_ok = any(e[0] == 'store' and e[1] == 'self' and e[2].endswith('__time') and isinstance(e[3], Tv) and not e[3].items
-               for e in effs) or any(e[0] == 'opaque-call' and str(e[1]).endswith('time.clear') for e in effs)
+    tfield = sx.trivial_getter_field('Powertrain', 'time') or '_Powertrain__time'      # the private field the `time` property returns
+    t_ok = any(e[0] == 'store' and e[1] == 'self' and e[2] == tfield and isinstance(e[3], Tv) and not e[3].items
+               for e in effs) or any(e[0] == 'opaque-call' and str(e[1]).endswith(('time.clear', tfield.split('__')[-1] + '.clear')) for e in effs)
     rep.decide(t_ok, R, 'Powertrain.reset:time', 'the time axis is not emptied', loc=m.loc)
     loops = [e[1] for e in effs if e[0] == 'loop']
     eloops = [L for L in loops if L.kind == 'index']
